@@ -38,6 +38,16 @@ ASSUME ~InLex("color", <<35, 102, 102, 48, 48, 97, 97>>)       \* lower case
 ASSUME InLex("xs:date", <<50, 48, 50, 52, 45, 48, 50, 45, 50, 57>>)   \* 2024-02-29
 ASSUME ~InLex("xs:date", <<50, 48, 50, 51, 45, 48, 50, 45, 50, 57>>)  \* 2023-02-29
 ASSUME InLex("xs:date", <<50, 48, 50, 51, 45, 48, 50, 45, 50, 56, 90>>)   \* ...Z
+ASSUME InLex("xs:date", <<49, 48, 48, 48, 48, 45, 48, 49, 45, 48, 49>>)   \* 10000-01-01
+ASSUME InLex("xs:date", <<49, 50, 48, 50, 52, 45, 48, 50, 45, 50, 57>>)   \* 12024-02-29
+ASSUME ~InLex("xs:date", <<49, 50, 48, 50, 51, 45, 48, 50, 45, 50, 57>>)   \* 12023-02-29
+ASSUME ~InLex("xs:date", <<48, 50, 48, 50, 52, 45, 48, 50, 45, 50, 57>>)   \* 02024-02-29
+ASSUME ~InLex("xs:date", <<48, 48, 48, 48, 45, 48, 49, 45, 48, 49>>)   \* 0000-01-01
+ASSUME InLex("xs:date", <<45, 49, 48, 48, 48, 48, 45, 48, 54, 45, 51, 48>>)   \* -10000-06-30
+ASSUME ~InLex("xs:date", <<49, 57, 48, 48, 45, 48, 50, 45, 50, 57>>)   \* 1900-02-29
+ASSUME InLex("xs:date", <<50, 48, 48, 48, 45, 48, 50, 45, 50, 57>>)   \* 2000-02-29
+ASSUME InLex("xs:date", <<49, 48, 48, 48, 48, 45, 48, 49, 45, 48, 49, 90>>)   \* 10000-01-01Z
+ASSUME ~InLex("xs:date", <<50, 48, 50, 45, 48, 49, 45, 48, 49>>)   \* 202-01-01
 ASSUME ~InLex("yyyy-mm-dd", <<50, 48, 50, 51, 45, 48, 50, 45, 50, 56, 90>>)
 ASSUME InLex("yyyy-mm-dd", <<50, 48, 50, 51, 45, 48, 50, 45, 50, 56>>)
 ASSUME InLex("number-or-normal", <<110, 111, 114, 109, 97, 108>>)
